@@ -85,7 +85,13 @@ pub fn vencrypt_to_bytes<BE: DecryptWriteBackend>(be: &BE, data: &Bytes) -> (r: 
     ensures r matches Ok(b) ==> b.data@ == ENC(data.data@),
 { unimplemented!() }
 
-pub struct Actor { pub _opaque: u64 }
+// the pack writer (Actor + FileWriterHandle thread) as the log of the index blob lists of the packs handed to it
+pub struct Actor { pub sent: Ghost<Seq<Seq<IndexBlob>>> }
+impl Actor {
+    #[verifier::external_body]
+    pub fn finalize(self) -> (r: RusticResult<()>) { unimplemented!() }
+}
+pub open spec fn sent_of(w: Option<Actor>) -> Seq<Seq<IndexBlob>> { match w { Some(a) => a.sent@, None => Seq::empty() } }
 
 // what may be handed to the pack writer: THE property of a finished pack.  The file is the blobs back
 // to back at the offsets the index records, then the encrypted header of exactly these blobs, then
@@ -101,9 +107,20 @@ pub open spec fn sealed_pack(file: Seq<u8>, index: IndexPack, tpe: BlobType) -> 
 }
 
 #[verifier::external_body]
-pub fn vsend_pack(writer: &Option<Actor>, file: BytesList, index: IndexPack, Ghost(tpe): Ghost<BlobType>) -> (r: RusticResult<()>)
+pub fn vsend_pack(writer: &mut Option<Actor>, file: BytesList, index: IndexPack, Ghost(tpe): Ghost<BlobType>) -> (r: RusticResult<()>)
     requires sealed_pack(file.all@, index, tpe),
+             *old(writer) is Some,   // `.as_ref().unwrap()`: the writer must not have been finalized yet
+    ensures *final(writer) is Some,
+            r is Ok ==> sent_of(*final(writer)) == sent_of(*old(writer)).push(index.blobs@),
+            r is Err ==> sent_of(*final(writer)) == sent_of(*old(writer)),
 { unimplemented!() }
+impl BasicPacker {
+    // size / count / age limits (SystemTime::elapsed): any answer
+    #[verifier::external_body]
+    pub fn should_save(&self) -> bool { unimplemented!() }
+}
+#[verifier::external_body]
+pub fn vtake_stats(s: &mut PackerStats) -> (r: PackerStats) ensures r == *old(s), { unimplemented!() }
 
 // ---- PackHeader::from_file: neighbours ----
 #[derive(Clone, Copy, PartialEq, Eq, Structural)]
